@@ -542,7 +542,8 @@ def make_config(rng, i, tier='quick', force=None):
     # (empty shells removed at the end of exploration -- also the first one --, bounds built from a handful of points)
     r4 = rng.random()
     if r4 < 0.2:
-        cfg.update(n_live=int([5, 8, 12][int(r4 / 0.2 * 3) % 3]), n_update=int([1, 2][int(r4 / 0.2 * 2) % 2]), n_batch=int([1, 2, 3, 5][int(r4 / 0.2 * 4) % 4]),
+        # (a live set must have more points than dimensions: the library cannot build an ellipsoid otherwise and says so)
+        cfg.update(n_live=max(int([5, 8, 12][int(r4 / 0.2 * 3) % 3]), 2 * n_dim), n_update=int([1, 2][int(r4 / 0.2 * 2) % 2]), n_batch=int([1, 2, 3, 5][int(r4 / 0.2 * 4) % 4]),
                    n_networks=0, n_eff=min(cfg['n_eff'], 100), resumes=max(cfg['resumes'], 1))
     if cfg['n_batch'] == 1 and r4 >= 0.2:
         cfg['n_live'] = 30
